@@ -21,43 +21,68 @@ CORES = sorted({e[1] for e in CAT})
 CINT = [(-1, CORES[0])] + [(CORES[i], CORES[i + 1]) for i in range(len(CORES) - 1)] + [(CORES[-1], None)]
 
 
+RAMS = sorted({e[2] for e in CAT})
+DISKS = sorted({e[3] for e in CAT})
+RINT = [(-1, RAMS[0])] + [(RAMS[i], RAMS[i + 1]) for i in range(len(RAMS) - 1)] + [(RAMS[-1], None)]
+DINT = [(-1, DISKS[0])] + [(DISKS[i], DISKS[i + 1]) for i in range(len(DISKS) - 1)] + [(DISKS[-1], None)]
+NR, ND = len(RINT), len(DINT)
+
+
+def in_regions(vals, ints):
+    for v, (lo, hi) in zip(vals, ints):
+        if not (v > lo and (hi is None or v <= hi)):
+            return False
+    return True
+
+
+def _check_one(core, ram, disk):
+    ic = InstanceCatalog()
+    name = ic.map_capacities_to_instance(cap=Capacities(core=core, ram=ram, disk=disk))
+    got = ic.get_instance_capacities(instance_type=name)
+    if got is None:
+        return False
+    gc, gr, gd = got.core, got.ram, got.disk
+    any_suff = False
+    for (k, c, r, d) in CAT:
+        if c >= core and r >= ram and d >= disk:
+            any_suff = True
+            # no other satisfying size is smaller-or-equal in every dimension
+            if (c <= gc and r <= gr and d <= gd) and (c, r, d) != (gc, gr, gd):
+                return False
+    if any_suff:
+        return gc >= core and gr >= ram and gd >= disk
+    # nothing suffices: the largest size
+    for (k, c, r, d) in CAT:
+        if c > gc or r > gr or d > gd:
+            return False
+    return True
+
+
 def _mk_slab(lo, hi):
-    def h_size(core: int, ram: int, disk: int) -> bool:
+    def h_size(core: int, rams: List[int], disks: List[int]) -> bool:
         """
-        pre: core >= 0 and ram >= 0 and disk >= 0
         pre: core > lo and (hi is None or core <= hi)
+        pre: len(rams) == NR and len(disks) == ND
+        pre: in_regions(rams, RINT) and in_regions(disks, DINT)
         post: R(_)
         """
         _closure = (lo, hi)
-        ic = InstanceCatalog()
-        name = ic.map_capacities_to_instance(cap=Capacities(core=core, ram=ram, disk=disk))
-        got = ic.get_instance_capacities(instance_type=name)
-        if got is None:
-            return False
-        gc, gr, gd = got.core, got.ram, got.disk
-        any_suff = False
-        for (k, c, r, d) in CAT:
-            if c >= core and r >= ram and d >= disk:
-                any_suff = True
-                # no other satisfying size is smaller-or-equal in every dimension
-                if (c <= gc and r <= gr and d <= gd) and (c, r, d) != (gc, gr, gd):
+        # one symbolic representative per threshold region of ram and of disk: every filter comparison is then
+        # decided by the preconditions, so this is a single path covering all NR x ND regions of the slab
+        for ram in rams:
+            for disk in disks:
+                if not _check_one(core, ram, disk):
                     return False
-        if any_suff:
-            return gc >= core and gr >= ram and gd >= disk
-        # nothing suffices: the largest size
-        for (k, c, r, d) in CAT:
-            if c > gc or r > gr or d > gd:
-                return False
         return True
     return h_size
 
 
 _QUICK = {0, 1, 2, 5, 9, 16, 24, len(CINT) - 3, len(CINT) - 2, len(CINT) - 1}
 for _i, (_lo, _hi) in enumerate(CINT):
-    add("instance_sizing/core_%s_%s" % (_lo + 1, _hi if _hi is not None else "inf"), _mk_slab(_lo, _hi), timeout=900,
+    add("instance_sizing/core_%s_%s" % (_lo + 1, _hi if _hi is not None else "inf"), _mk_slab(_lo, _hi), timeout=1200, per_path_timeout=1000,
         tiers=("quick", "thorough") if _i in _QUICK else ("thorough",), encodes=ENC_I,
-        bounds="requests with core in (%s, %s], ram and disk unbounded ints >= 0 (all %d ram x disk threshold regions are the solver's), "
-               "live catalogue of %d sizes" % (_lo, _hi if _hi is not None else "inf", 54, len(CAT)))
+        bounds="requests with core in (%s, %s] x every one of the %d ram and %d disk threshold regions (incl. the unbounded ones), each an unbounded "
+               "symbolic int constrained only to its region; live catalogue of %d sizes" % (_lo, _hi if _hi is not None else "inf", NR, ND, len(CAT)))
 
 
 @harness("instance_names_agree", timeout=120, encodes=ENC_I,
